@@ -522,3 +522,50 @@ func linzCase(k *engine.Case) {
 		k.Fail("not-linearizable", "no sequential order of the recorded Set/Get/Remove calls explains the observed results (%s cache)", bname)
 	}
 }
+
+// ---------------------------------------------------------------- kind "evict-race"
+
+// evictRaceCase: the size bound under concurrency. A cache of size s holds s keys; one Set of a
+// new key races several Gets of the key that this Set has to push out. Whatever the
+// interleaving, once all calls have returned the key just set is retrievable ("a key touched
+// more recently than size other distinct keys is never evicted": nothing was touched after
+// it except, possibly, keys that were already gone) and at most s keys are.
+func evictRaceCase(k *engine.Case) {
+	r := k.R
+	restore := installClock(7000)
+	defer restore()
+	const rounds = 150
+	size := 1 + r.Intn(2)
+	readers := 3 + r.Intn(5)
+	k.Logf("NewTTLMemCache(size=%d, ttl=0): %d rounds of one Set(new key) racing %d Gets of the least recently used key", size, rounds, readers)
+	k.Nontrivial()
+	for round := 0; round < rounds && !k.Failed(); round++ {
+		c := cache.NewTTLMemCache(size, 0)
+		for i := 0; i < size; i++ {
+			c.Set(bg, fmt.Sprintf("old-%d", i), []byte{byte(i)})
+		}
+		fns := []func(){func() { c.Set(bg, "new", []byte{99}) }}
+		for i := 0; i < readers; i++ {
+			fns = append(fns, func() { c.Get(bg, "old-0") })
+		}
+		if !runRacers(k, "evict-race", fns) {
+			return
+		}
+		k.Evals(1)
+		if v, err := c.Get(bg, "new"); err != nil || len(v) != 1 || v[0] != 99 {
+			k.Fail("recent-key-evicted", "size=%d round %d: Set(\"new\") raced %d Gets of the least recently used key; after all calls returned Get(\"new\") = (%v, %v)", size, round, readers, v, err)
+			return
+		}
+		live := 0
+		for i := 0; i < size; i++ {
+			if _, err := c.Get(bg, fmt.Sprintf("old-%d", i)); err == nil {
+				live++
+			}
+		}
+		if live+1 > size {
+			k.Fail("bound-exceeded", "size=%d round %d: %d keys are retrievable after the racing Set", size, round, live+1)
+			return
+		}
+	}
+	k.Count("evict_race_rounds", rounds)
+}
